@@ -26,6 +26,10 @@ def _observe(cd, toff=0):
         o["isp"] = enc.ints(cd.indices_selected_phases(sel))
         # every column of the shuffled anomaly is a rearrangement of the same column of the anomaly
         o["shuffled"] = enc.arr(cd.shuffled_anomaly())
+        # ... and producing it leaves the anomaly, the phase means and the observable as they were
+        o["anomaly_after"] = enc.arr(cd.anomaly())
+        o["phase_mean_after"] = enc.arr(cd.phase_mean())
+        o["observable_after"] = enc.ints(cd.observable())
     except Exception as ex:
         o["exc"] = type(ex).__name__
     return {"op": "observe", "obs": o}
